@@ -362,7 +362,7 @@ class WebSocketApp:
             if reconnecting and self.sock:
                 self.sock.shutdown()
 
-            self.sock = WebSocket(
+            sock = self.sock = WebSocket(
                 self.get_mask_key,
                 sockopt=sockopt,
                 sslopt=sslopt,
@@ -372,11 +372,11 @@ class WebSocketApp:
                 dispatcher=dispatcher,
             )
 
-            self.sock.settimeout(getdefaulttimeout())
+            sock.settimeout(getdefaulttimeout())
             try:
                 header = self.header() if callable(self.header) else self.header
 
-                self.sock.connect(
+                sock.connect(
                     self.url,
                     header=header,
                     cookie=self.cookie,
@@ -403,11 +403,13 @@ class WebSocketApp:
                 else:
                     self._callback(self.on_open)
 
-                if not self.sock:
-                    # close() was called from the on_open / on_reconnect callback
+                if self.sock is not sock:
+                    # close() was called from the on_open / on_reconnect callback,
+                    # or from another thread while the connection was being set up
+                    sock.close()
                     return
 
-                dispatcher.read(self.sock.sock, read, check)
+                dispatcher.read(sock.sock, read, check)
             except (
                 WebSocketConnectionClosedException,
                 ConnectionRefusedError,
